@@ -5,7 +5,7 @@
     (step.c scanning primitives), over Map/MapModel.v (C10) and Xlat/Step.v (C02). *)
 From Coq Require Import NArith ZArith List Bool Lia.
 From KdV Require Import Base.Wrap64 Map.MapModel Map.MapSpec Xlat.Step Xlat.ArchSpec
-  Sys.LayoutModel Sys.LayoutSpec Sys.LayoutProofs Sys.ScanModel Sys.ScanProofs Sys.LinuxX86Model Sys.LinuxX86Proofs Xlat.WalkProofs Xlat.FmtX86.
+  Sys.LayoutModel Sys.LayoutSpec Sys.LayoutProofs Sys.LayoutArchModel Sys.LayoutArchProofs Sys.ScanModel Sys.ScanProofs Sys.LinuxX86Model Sys.LinuxX86Proofs Xlat.WalkProofs Xlat.FmtX86.
 Import ListNotations.
 Local Open Scope N_scope.
 
@@ -56,6 +56,66 @@ Theorem C08_set_layout_regions : forall idx, idx <> MAP_KPHYS_DIRECT ->
     (forall k, k <> idx -> k <> MAP_KPHYS_DIRECT -> get_map s' k = get_map s k).
 Proof. exact sys_set_layout_denote. Qed.
 Print Assumptions C08_set_layout_regions.
+
+(** * Other architectures, layout level (partial: the decisions that feed these
+      layouts — scans, symbol look-ups — are covered by the property-level tie only)
+
+    ia32 Linux with VMALLOC_START = [vs] found through vmap_area_list / vmlist:
+    after the temporary layout, the final map and [set_linux_directmap], the
+    forward map sends exactly [0xc0000000, vs - 1] to the direct method, the rest
+    below 4G to the page tables; the reverse map accepts exactly
+    [0, vs - 1 - 0xc0000000] *)
+Theorem C08_ia32_layout_partial : forall s vs,
+  wf_sys s -> get_map s MAP_KPHYS_DIRECT = None ->
+  IA32_LINUX_DIRECTMAP < vs -> vs <= 2^32 ->
+  exists s', ia32_linux_maps s (Some vs) = (L_OK, s') /\
+    get_meth s' METH_DIRECT = mk_linear KPHYSADDR (neg_u64 IA32_LINUX_DIRECTMAP) /\
+    get_meth s' METH_RDIRECT = mk_linear KVADDR (- neg_u64 IA32_LINUX_DIRECTMAP)%Z /\
+    (forall x, mdenote (get_map s' MAP_KV_PHYS) x = ia32_fwd_spec vs x) /\
+    (forall p, mdenote (get_map s' MAP_KPHYS_DIRECT) p = ia32_rev_spec vs p).
+Proof. exact ia32_layout. Qed.
+Print Assumptions C08_ia32_layout_partial.
+
+(** ... i.e. the reverse map's domain is exactly the image of the forward
+    direct region under the direct method *)
+Theorem C08_ia32_reverse_domain_is_image_partial : forall vs,
+  IA32_LINUX_DIRECTMAP < vs -> vs <= 2^32 ->
+  forall p, ia32_rev_spec vs p = Z.of_nat METH_RDIRECT <->
+            exists v, ia32_fwd_spec vs v = Z.of_nat METH_DIRECT /\ lin (neg_u64 IA32_LINUX_DIRECTMAP) v = p.
+Proof. exact ia32_rev_is_image. Qed.
+Print Assumptions C08_ia32_reverse_domain_is_image_partial.
+
+(** without the vmalloc symbols this fails (known finding C08-ia32-rdirect-untrimmed):
+    the reverse map accepts a physical address although the forward map has no
+    direct region at all *)
+Theorem C08_ia32_layout_nosym_refuted :
+  exists s', ia32_linux_maps sys_new None = (L_OK, s') /\
+    exists p, mdenote (get_map s' MAP_KPHYS_DIRECT) p = Z.of_nat METH_RDIRECT /\
+              forall v, mdenote (get_map s' MAP_KV_PHYS) v <> Z.of_nat METH_DIRECT.
+Proof. exact ia32_layout_nosym_refuted. Qed.
+Print Assumptions C08_ia32_layout_nosym_refuted.
+
+(** arm [map_direct] = the tail of riscv64 / aarch64 [add_linux_linear_map]:
+    a region [first, last] with virtual-to-physical offset [off] whose image
+    does not wrap: forward region -> direct (linear [off]), its image
+    [first + off, last + off] -> reverse direct (linear [-off]); the two are
+    inverse, the reverse region is exactly the image of the forward one *)
+Theorem C08_linear_directmap_layout_partial : forall s first last off,
+  wf_sys s -> first <= last -> last < 2^64 ->
+  (0 <= Z.of_N first + off)%Z -> (Z.of_N last + off < 2^64)%Z ->
+  (- 2^63 < off < 2^63)%Z ->
+  exists s', map_direct s first last off = (L_OK, s') /\
+    get_meth s' METH_DIRECT = mk_linear KPHYSADDR off /\
+    get_meth s' METH_RDIRECT = mk_linear KVADDR (- off)%Z /\
+    (forall x, mdenote (get_map s' MAP_KV_PHYS) x =
+               if (first <=? x) && (x <=? last) then Z.of_nat METH_DIRECT else mdenote (get_map s MAP_KV_PHYS) x) /\
+    (forall p, mdenote (get_map s' MAP_KPHYS_DIRECT) p =
+               if (lin off first <=? p) && (p <=? lin off last) then Z.of_nat METH_RDIRECT
+               else mdenote (get_map s MAP_KPHYS_DIRECT) p) /\
+    (forall v, first <= v <= last -> lin off first <= lin off v <= lin off last /\ lin (- off) (lin off v) = v) /\
+    (forall p, lin off first <= p <= lin off last -> first <= lin (- off) p <= last /\ lin off (lin (- off) p) = p).
+Proof. exact map_direct_layout. Qed.
+Print Assumptions C08_linear_directmap_layout_partial.
 
 (** * Scanning primitives
 
